@@ -89,6 +89,10 @@ fn values<C: GenericConfig<D, F = F>>(c: &Case, known: &[String], st: &mut Stats
             };
             let same = p == *comp.as_ref().unwrap();
             st.evals(2);
+            if !same {
+                st.nontrivial(&(chash, true, "verify_compressed", edit_desc));
+                st.nontrivial(&(chash, true, "decompress", edit_desc));
+            }
             match catch(|| data.verify_compressed(p.clone())) {
                 Ok(Ok(())) => {
                     // exempt: the redundant indices list (never read)
@@ -116,6 +120,9 @@ fn values<C: GenericConfig<D, F = F>>(c: &Case, known: &[String], st: &mut Stats
             };
             let same = p == pr.proof;
             st.evals(1);
+            if !same {
+                st.nontrivial(&(chash, false, "verify", edit_desc));
+            }
             match catch(|| data.verify(p.clone())) {
                 Ok(Ok(())) => {
                     if !same && !edit_desc.contains("alias") {
@@ -153,7 +160,6 @@ fn values<C: GenericConfig<D, F = F>>(c: &Case, known: &[String], st: &mut Stats
             continue;
         }
         st.label(&format!("shape:{}", class));
-        st.nontrivial(&(chash, c.compressed, "shape", i, e.name()));
         let r = run(&tree, &format!("shape {} {} {}", class, path_string(path), e.name()), st);
         *get_mut(&mut tree, path).unwrap() = old;
         r.map_err(|m| format!("{} [shape edit {} at {}]", m, e.name(), path_string(path)))?;
@@ -180,7 +186,6 @@ fn values<C: GenericConfig<D, F = F>>(c: &Case, known: &[String], st: &mut Stats
             *get_mut(&mut tree, path).unwrap() = Value::from(newv);
         }
         st.label(&format!("range:{}", desc));
-        st.nontrivial(&(chash, c.compressed, "range", i, desc));
         let edit_desc = format!("{} {} {}", desc, class, path_string(path));
         let r2 = run(&tree, &edit_desc, st);
         *get_mut(&mut tree, path).unwrap() = old;
@@ -205,7 +210,6 @@ fn values<C: GenericConfig<D, F = F>>(c: &Case, known: &[String], st: &mut Stats
                 };
                 m.insert(newk.clone(), val);
                 st.label("map_key_edit");
-                st.nontrivial(&(chash, "key", path_string(path), newk.clone()));
                 let r2 = run(&tree, &format!("map key {} -> {} at {}", k, newk, path_string(path)), st);
                 tree = orig_tree.clone();
                 r2.map_err(|m| format!("{} [map key {} -> {} at {}]", m, k, newk, path_string(path)))?;
@@ -579,6 +583,7 @@ fn stark_values_shape<const COLS: usize, const PIS: usize>(
             }
         };
         st.evals(1);
+        st.nontrivial(&(chash, "stark", desc));
         match catch(|| verify_stark_proof(stark.clone(), p, &el.config, None)) {
             Ok(Ok(())) => {
                 // `ctl_zs_first: Some([])` and `None` are two encodings of "no cross-table openings"
@@ -623,7 +628,6 @@ fn stark_values_shape<const COLS: usize, const PIS: usize>(
             continue;
         }
         st.label(&format!("stark_shape:{}", class));
-        st.nontrivial(&(chash, "stark_shape", i, e.name()));
         let r = run(&tree, &format!("shape {} {}", path_string(path), e.name()), st);
         *get_mut(&mut tree, path).unwrap() = old;
         r.map_err(|m| format!("{} [stark shape edit {} at {}]", m, e.name(), path_string(path)))?;
@@ -634,7 +638,6 @@ fn stark_values_shape<const COLS: usize, const PIS: usize>(
             let old = v.clone();
             *v = if old.is_null() { json!([]) } else { Value::Null };
             st.label("stark_option_toggled");
-            st.nontrivial(&(chash, "option", ptr));
             let r = run(&tree, &format!("shape option {}", ptr), st);
             *tree.pointer_mut(ptr).unwrap() = old;
             r.map_err(|m| format!("{} [option toggled at {}]", m, ptr))?;
@@ -654,7 +657,6 @@ fn stark_values_shape<const COLS: usize, const PIS: usize>(
         };
         *get_mut(&mut tree, path).unwrap() = Value::from(newv);
         st.label(&format!("stark_range:{}", desc));
-        st.nontrivial(&(chash, "stark_range", i, desc));
         let r2 = run(&tree, &format!("range:{} {}", desc, path_string(path)), st);
         *get_mut(&mut tree, path).unwrap() = old;
         r2.map_err(|m| format!("{} [stark range edit {} at {}]", m, desc, path_string(path)))?;
